@@ -284,7 +284,7 @@ fn c10_jobs(thorough: bool) -> Vec<Job> {
 fn c14_jobs(thorough: bool) -> Vec<Job> {
     let mut out = vec![];
     let hk = |n: usize| c14::HOOKS[..n].to_vec();
-    let g = |name: &str, admin: Option<u8>, initial: Vec<(u8, u64)>, n: u8, weights: Vec<u64>, removes: Vec<Vec<u8>>, full: Vec<u8>, n_callers: u8, hooks: Vec<&'static str>, blocks: u64| {
+    let g = |name: &str, admin: Option<u8>, initial: Vec<(u8, u64)>, n: u8, weights: Vec<u64>, removes: Vec<Vec<u8>>, full: Vec<u8>, callers: Vec<u8>, hooks: Vec<&'static str>, blocks: u64| {
         Job::G14(
             c14::GroupAdmin {
                 cfg: c14::GroupCfg {
@@ -294,7 +294,7 @@ fn c14_jobs(thorough: bool) -> Vec<Job> {
                     add_lists: c09::add_lists(n, 2, &weights),
                     remove_lists: removes,
                     full_callers: full,
-                    n_callers,
+                    callers,
                     hooks,
                     hmax: H0 + blocks - 1,
                 },
@@ -311,17 +311,19 @@ fn c14_jobs(thorough: bool) -> Vec<Job> {
         r
     };
     if thorough {
-        out.push(g("C14/group/admin AD/init[]/members{A,B,C}/weights{0,1,2}/3 hooks/2 blocks", Some(0), vec![], 3, vec![0, 1, 2], rem3(), vec![0, 1, 2], 3, hk(3), 2));
-        out.push(g("C14/group/admin AD/init[A:1,B:2]/members{A,B,C}/weights{0,1,2}/2 hooks/3 blocks", Some(0), vec![(0, 1), (1, 2)], 3, vec![0, 1, 2], rem3(), vec![0, 1], 3, hk(2), 3));
-        out.push(g("C14/group/no admin/init[A:1,B:2]/members{A,B}/weights{0,1,2}/3 hooks/2 blocks", None, vec![(0, 1), (1, 2)], 2, vec![0, 1, 2], rem2(), vec![0, 1, 2], 3, hk(3), 2));
+        out.push(g("C14/group/admin AD/init[]/members{A,B,C}/weights{0,1,2}/3 hooks/2 blocks", Some(0), vec![], 3, vec![0, 1, 2], rem3(), vec![0, 1, 2], vec![0, 1, 2], hk(3), 2));
+        out.push(g("C14/group/admin AD/init[A:1,B:2]/members{A,B,C}/weights{0,1,2}/2 hooks/3 blocks", Some(0), vec![(0, 1), (1, 2)], 3, vec![0, 1, 2], rem3(), vec![0, 1], vec![0, 1, 2], hk(2), 3));
+        out.push(g("C14/group/no admin/init[A:1,B:2]/members{A,B}/weights{0,1,2}/3 hooks/2 blocks", None, vec![(0, 1), (1, 2)], 2, vec![0, 1, 2], rem2(), vec![0, 1, 2], vec![0, 1, 2], hk(3), 2));
     }
     // (the quick configurations are part of the thorough tier too)
-    out.push(g("C14/group/admin AD/init[]/members{A,B,C}/weights{0,1,2}/2 hooks/2 blocks", Some(0), vec![], 3, vec![0, 1, 2], rem3(), vec![0, 1], 3, hk(2), 2));
-    out.push(g("C14/group/admin AD/init[A:1,B:2]/members{A,B}/weights{0,1,2}/callers AD,AD2,X and the members A,B/2 hooks/2 blocks", Some(0), vec![(0, 1), (1, 2)], 2, vec![0, 1, 2], rem2(), vec![0, 1, 2], 5, hk(2), 2));
-    out.push(g("C14/group/no admin/init[A:1,B:2]/members{A,B}/weights{0,1,2}/callers AD,AD2,X and the members A,B/2 hooks/2 blocks", None, vec![(0, 1), (1, 2)], 2, vec![0, 1, 2], rem2(), vec![0, 1, 2], 5, hk(2), 2));
+    out.push(g("C14/group/admin AD/init[]/members{A,B,C}/weights{0,1,2}/2 hooks/2 blocks", Some(0), vec![], 3, vec![0, 1, 2], rem3(), vec![0, 1], vec![0, 1, 2], hk(2), 2));
+    out.push(g("C14/group/admin AD/init[A:1,B:2]/members{A,B}/weights{0,1,2}/callers AD,AD2,X, the members A,B and the hooks H1,H2/2 hooks/2 blocks", Some(0), vec![(0, 1), (1, 2)], 2, vec![0, 1, 2], rem2(), vec![0, 1, 2], vec![0, 1, 2, 3, 4, 5, 6], hk(2), 2));
+    out.push(g("C14/group/no admin/init[A:1,B:2]/members{A,B}/weights{0,1,2}/callers AD,AD2,X, the members A,B and the hooks H1,H2/2 hooks/2 blocks", None, vec![(0, 1), (1, 2)], 2, vec![0, 1, 2], rem2(), vec![0, 1, 2], vec![0, 1, 2, 3, 4, 5, 6], hk(2), 2));
     // the admins themselves are offered as hook addresses: a governing contract that also listens
-    out.push(g("C14/group/admin AD/init[A:1]/members{A,B}/weights{0,1,2}/hooks{H1,AD,AD2}/2 blocks", Some(0), vec![(0, 1)], 2, vec![0, 1, 2], rem2(), vec![0, 1], 3, vec!["H1", "AD", "AD2"], 2));
+    out.push(g("C14/group/admin AD/init[A:1]/members{A,B}/weights{0,1,2}/hooks{H1,AD,AD2}/2 blocks", Some(0), vec![(0, 1)], 2, vec![0, 1, 2], rem2(), vec![0, 1], vec![0, 1, 2], vec!["H1", "AD", "AD2"], 2));
     let s = |admin: Option<u8>, tpw: u128, mb: u128, funds: Vec<u128>, amounts: Vec<u128>, hooks: Vec<&'static str>, blocks: u64, cw20: bool| {
+        // the default hook addresses also try the admin/hook calls themselves
+        let callers: Vec<u8> = if hooks.iter().all(|h| c14::HOOKS.contains(h)) { vec![0, 1, 2, 5, 6] } else { vec![0, 1, 2] };
         let hooks_name = if hooks.iter().all(|h| c14::HOOKS.contains(h)) { format!("{} hooks", hooks.len()) } else { format!("hooks{:?}", hooks) };
         Job::S14(
             c14::StakeAdmin {
@@ -338,6 +340,7 @@ fn c14_jobs(thorough: bool) -> Vec<Job> {
                     funds,
                     amounts,
                     cw20,
+                    callers,
                     hooks,
                     hmax: H0 + blocks - 1,
                 },
@@ -374,17 +377,17 @@ fn describe(prop: &str) -> (&'static str, &'static str, &'static str) {
     match prop {
         "C09" => (
             "cw4-group: UpdateMembers with every add list over the member alphabet x weight alphabet of size <= 2 combined with every remove list of size <= 2 (overlaps, re-adds, re-weights, removal of non-members, zero weights, empty update, a repeated address in add and in remove, weights 2^64-1), any number of updates per block, AdvanceBlock up to the block bound; initial lists [], [A:1], [A:0], [A:1,B:2] and lists with a repeated member. cw4-stake (kernel + bank, native denom): Bond/Unbond of 1..3 tokens by two users, Claim, AdvanceBlock; one edge configuration with two users bonding 1e19 each (sum of weights above 2^64).",
-            "reference = membership at the START of every block since instantiation. After every step, for every probe address (members and a never-member) and every height h in {0, H0-1, H0 .. now+2}: Member{addr,at_height:h} == reference (None up to and including the instantiation height, unaffected by changes in block h or later, current value for future heights); Member{addr} == current; cw4-group TotalWeight{at_height:h} likewise; TotalWeight == sum of ListMembers paged by 2; listing == true membership; raw cw4::TOTAL_KEY and cw4::member_key(addr) decode to the smart-query values. For cw4-stake the history is built from the weights the contract reported when they were current (whether they are the right function of the stake is C10).",
+            "reference = membership at the START of every block since instantiation. After every step, for every probe address (members and a never-member) and every height h in {0, H0-1, H0 .. now+2}: Member{addr,at_height:h} == reference (None up to and including the instantiation height, unaffected by changes in block h or later, current value for future heights); Member{addr} == current; cw4-group TotalWeight{at_height:h} likewise; TotalWeight == sum of ListMembers paged by 2; listing == true membership; ListMembers{start_after: X} for every probe address X (member or not), in one page and paged by 1, == the true members sorting after X; raw cw4::TOTAL_KEY and cw4::member_key(addr) decode to the smart-query values. For cw4-stake the history is built from the weights the contract reported when they were current (whether they are the right function of the stake is C10).",
             "the clock is capped (blocks per configuration in its name) and weights are finite, so every configuration runs to a FIXPOINT: all histories over the alphabet within the block bound, any number of updates per block",
         ),
         "C10" => (
-            "Bond with funds {1,2,3 of the stake denom, another denom, a denom equal to the stake denom up to letter case, two denoms, none}; cw20 Send{Bond} through the configured real cw20-base token and through a foreign one; Receive sent directly by a user (for himself / for another user); Unbond {0,1,2,3, stake+1}; Claim; a donation to the contract; AdvanceBlock (+1 block, +5 s; in the sub-second configuration blocks start at T0+0.7 s and advance by 9.5 s or 0.5 s). Configurations: native / cw20 stake token, tokens_per_weight {1,2,3}, min_bond {0,1,2,5}, unbonding Height(2) / Time(10 s), two stakers with finite funds and a donor. Edge configurations: bonds of 2^64*tpw-1, 2^64*tpw, 2^64*tpw+3, 2^128-1, 2^128-2, and two stakers bonding 1e19 each (sum of weights above 2^64).",
+            "Bond with funds {1,2,3 of the stake denom, another denom, a denom equal to the stake denom up to letter case, two denoms, none; in cw20 configurations a native coin whose denom is spelled like the token address}; cw20 Send{Bond} through the configured real cw20-base token and through a foreign one; Receive sent directly by a user (for himself / for another user); Unbond {0,1,2,3, stake+1}; Claim; a donation to the contract; AdvanceBlock (+1 block, +5 s; in the sub-second configuration blocks start at T0+0.7 s and advance by 9.5 s or 0.5 s). Configurations: native / cw20 stake token, tokens_per_weight {1,2,3}, min_bond {0,1,2,5}, unbonding Height(2) / Time(10 s), two stakers with finite funds and a donor. Edge configurations: bonds of 2^64*tpw-1, 2^64*tpw, 2^64*tpw+3, 2^128-1, 2^128-2, and two stakers bonding 1e19 each (sum of weights above 2^64).",
             "reference ledger {stake[u], claims[u]=[(amount, unbond block height / exact block time in nanoseconds + period)]} stepped on accepted calls. State: real holdings of the contract (kernel bank / real cw20 balance) >= sum stakes + sum unreleased claims, == when nobody donated; Staked and Claims queries == ledger; Member{u} == Some(floor(stake/tokens_per_weight)) compared in 128 bits iff stake >= max(min_bond,1) else None; TotalWeight == sum of listed weights; listing == Member queries. Transition: accepted bond with anything but exactly the configured token, foreign-token Send{Bond} or user-sent Receive accepted => violation; Unbond above the stake accepted => violation; an accepted Claim moves exactly the sum of the caller's claims whose release point is reached (computed by the reference) from the contract to the caller and removes them, nobody else's balance moves; every other accepted call moves exactly its own amount; a refused call and a block advance change nothing.",
             "closed configurations (finite funds, capped clock, zero-unbond offered once per pending zero claim) run to FIXPOINT; edge configurations to the stated depth",
         ),
         "C14" => (
-            "cw4-group: UpdateAdmin{None|AD|AD2}, AddHook/RemoveHook{H1,H2(,H3)}, UpdateMembers (every add list of size <= 2 over members x weights, remove lists incl. overlap with add, a non-member, a repeated address; re-weight to the same value) by the admin, the other admin candidate, a stranger and (in two configurations) the members A and B themselves, incl. removing themselves; hook addresses that are the admins themselves; AdvanceBlock. cw4-stake: the same admin/hook calls plus Bond/Unbond by two users; native denom (response messages observed, not dispatched) and one configuration with a real cw20-base stake token where Send{Bond} -> Receive and every hook message are dispatched by the kernel to sink contracts and the notifications are read from the dispatch trace.",
-            "reference {admin, hooks, members} stepped on accepted calls of the reference admin. A call by anyone else, and every call once the admin is None, leaves the Admin, Hooks and (cw4-group) ListMembers queries unchanged; after an admin's call they equal the reference. Every accepted call whose effect changes some weight returns exactly one member_changed_hook message per hook registered at that time; every notification goes to a registered hook, carries no funds, names only addresses the call listed (the bonding sender for cw4-stake); folding its diffs per address in order: first old == weight before the call, each new == next old, last new == weight after the call; every address whose weight changed has an entry. cw4-stake: a bond/unbond that changes no weight sends no notification.",
+            "cw4-group: UpdateAdmin{None|AD|AD2}, AddHook/RemoveHook{H1,H2(,H3)}, UpdateMembers (every add list of size <= 2 over members x weights, remove lists incl. overlap with add, a non-member, a repeated address; re-weight to the same value) by the admin, the other admin candidate, a stranger and (in two configurations) the members A and B themselves, incl. removing themselves, and the hook addresses H1, H2 themselves; hook addresses that are the admins themselves; AdvanceBlock. cw4-stake: the same admin/hook calls (also sent by the hook addresses) plus Bond/Unbond by two users; native denom (response messages observed, not dispatched) and one configuration with a real cw20-base stake token where Send{Bond} -> Receive and every hook message are dispatched by the kernel to sink contracts and the notifications are read from the dispatch trace.",
+            "reference {admin, hooks, members} stepped on accepted calls of the reference admin. A call by anyone else, and every call once the admin is None, leaves the Admin, Hooks and (cw4-group) ListMembers queries unchanged; after an admin's call they equal the reference. Every accepted call whose effect changes some weight returns exactly one member_changed_hook message per hook registered at that time; every notification goes to a registered hook, carries no funds, names only addresses the call listed (the bonding sender for cw4-stake), no entry has old None and new None; folding its diffs per address in order: first old == weight before the call, each new == next old, last new == weight after the call; every address whose weight changed has an entry. cw4-stake: a bond/unbond that changes no weight sends no notification.",
             "all configurations run to FIXPOINT (single block or two blocks; finite weights, hooks, admins, funds)",
         ),
         _ => ("", "", ""),
